@@ -16,6 +16,7 @@ from typing import Any, Dict, Iterator, List, Tuple
 import plumpy
 from plumpy import ports as pports
 
+from .. import explore
 from .. import refports as R
 from ..refports import ABSENT, NODEFAULT
 from ..vloop import VLoop
@@ -270,7 +271,11 @@ def _work(chunk: List[tuple]) -> Dict[str, Any]:
     total: Dict[str, Any] = {'n': 0, 'violations': [], 'accepted': 0, 'rejected': 0, 'specs': 0, 'both': 0}
     for desc in chunk:
         try:
-            res = check_spec(desc)
+            with explore.watchdog(20 * explore.WATCHDOG_S):
+                res = check_spec(desc)
+        except explore.Hang as hang:
+            res = {'n': 0, 'accepted': 0, 'rejected': 0,
+                   'violations': [{'clause': 'hang', 'features': {}, 'detail': str(hang), 'case': {'spec': desc, 'inputs': None}}]}
         except Exception as exc:  # noqa: BLE001
             res = {'n': 0, 'accepted': 0, 'rejected': 0,
                    'violations': [{'clause': 'spec-definition-raised', 'features': {'exc': type(exc).__name__},
